@@ -158,6 +158,9 @@ func scalarSort(t types.Type) *Sort {
 }
 
 func typeName(t types.Type) string {
+	if b, ok := t.(*types.Basic); ok && b.Kind() < types.UntypedBool {
+		return types.Typ[b.Kind()].Name() // byte -> uint8, rune -> int32
+	}
 	s := types.TypeString(t, func(p *types.Package) string {
 		if p.Path() == "github.com/hslam/rpc" {
 			return ""
